@@ -595,3 +595,58 @@ func copyLiteralRule(c *Ctx, rule string, inScope func(name string) bool) {
 	}
 	c.Floor(rule, n, 1)
 }
+
+// globalAliasRule: what an exported operation returns is the caller's to keep:
+// it does not alias package-level memory that other callers also receive.
+func globalAliasRule(c *Ctx, rule string) {
+	p := c.P
+	c.Rule(rule, "no exported function or method returns memory (or a value containing memory) that belongs to a package-level variable: every caller would hold the same mutable slice or map, so one caller writing into its result changes what all later callers get — and the write races with their reads")
+	e := p.effects()
+	n := 0
+	for _, f := range p.SortedFuncs() {
+		if !f.Exported() {
+			continue
+		}
+		if rn := recvTypeName(f); rn != "" {
+			if nt := p.Named(rn); nt == nil || !nt.Obj().Exported() {
+				continue
+			}
+		}
+		sf := p.SSA.FuncValue(f)
+		s := e.sums[sf]
+		if s == nil || len(s.ret) == 0 {
+			continue
+		}
+		n++
+		name := FuncName(f)
+		var bad []string
+		for i := range s.ret {
+			for k := range s.ret[i] {
+				if strings.HasPrefix(k, "G:") {
+					// a sentinel value (an error, a zero value) is not memory a caller
+					// can write into; a slice or map is
+					if g := p.Global(k[2:]); g != nil {
+						switch g.Type().Underlying().(type) {
+						case *types.Slice, *types.Map:
+							bad = append(bad, fmt.Sprintf("result %d may be the package-level %s itself", i, k[2:]))
+						}
+					}
+				}
+			}
+			if i < len(s.retContents) {
+				for k := range s.retContents[i] {
+					if strings.HasPrefix(k, "G:") {
+						bad = append(bad, fmt.Sprintf("result %d contains memory of the package-level %s", i, k[2:]))
+					}
+				}
+			}
+		}
+		sort.Strings(bad)
+		if len(bad) > 0 {
+			c.Bad(rule, name, p.FuncDecls[f].Pos(), strings.Join(bad, "; "))
+		} else {
+			c.OK(rule, name, p.FuncDecls[f].Pos(), "results share nothing with package-level variables")
+		}
+	}
+	c.Floor(rule, n, 100)
+}
